@@ -79,11 +79,11 @@ impl Model {
         self.services.entry(svc).or_default()
     }
 
-    /// R1-R4. `lost` collects (previous owner) of addresses whose owner changed.
+    /// R1-R4. `taken_over` collects (service, address, connection) for every address that got a
+    /// second writer while a connection owned it (used for the non-triviality rule only).
     pub fn write(&mut self, u: &Universe, w: &Inst, tag: Option<&Tag>, fx: &mut Effects, taken_over: &mut Vec<(usize, usize, String)>) {
         let mut owner = w.client_id.clone();
         let mut from_cluster = w.from_cluster;
-        let mut from_grpc = w.from_grpc;
         if self.in_range(u, w.svc) && !w.from_grpc {
             owner.clear();
             from_cluster = 0;
@@ -92,15 +92,14 @@ impl Model {
         let new = match s.insts.get(&w.addr) {
             None => MInst { weight: w.weight, enabled: w.enabled, healthy: w.healthy, ephemeral: w.ephemeral, owner, from_cluster },
             Some(old) => {
-                if w.ephemeral && !from_grpc && !old.owner.is_empty() {
+                // R3 (real shapes: an instance has a client id iff it came over gRPC)
+                if w.ephemeral && !w.from_grpc && !old.owner.is_empty() {
                     owner = old.owner.clone();
                     from_cluster = old.from_cluster;
-                    from_grpc = true;
                     fx.http_over_grpc_kept_owner = true;
                     // second writer on a connection-owned address
                     taken_over.push((w.svc, w.addr, owner.clone()));
                 }
-                let _ = from_grpc;
                 let (mut weight, mut enabled, mut ephemeral) = (w.weight, w.enabled, w.ephemeral);
                 if let Some(t) = tag {
                     if t.is_none() {
